@@ -39,7 +39,8 @@ func genCase(profile string) *rapid.Generator[Case] {
 			sets = []string{"core", "core", "mid", "listener", "query"}
 		}
 		c.Cfg.Gates = gateSets[rapid.SampledFrom(sets).Draw(t, "gates")]
-		hot := []string{"svc.s.1", "svc.s.2", "svc.t.a.1", "svc.t.a.2", "svc.r.1", "svc.m.1", "svc.m.w.a.x", "svc.t.a.1", "svc.m.fixed", "svc.m.q.1"}
+		hot := []string{"svc.s.1", "svc.s.2", "svc.t.a.1", "svc.t.a.2", "svc.r.1", "svc.m.1", "svc.m.w.a.x", "svc.t.a.1", "svc.m.fixed", "svc.m.q.1",
+			"svc.u.book.1", "svc.u.toy.1", "svc.m.a.b", "svc.m.c.b", "svc.r.1"}
 		genRID := rapid.OneOf(rapid.SampledFrom(hot), rapid.SampledFrom(hot), rapid.SampledFrom(allRIDs))
 		foreign := func() Op {
 			return Op{K: "foreign", Typ: rapid.SampledFrom([]string{"reset", "resetall", "token", "tokenid", "tokenreset", "event"}).Draw(t, "ftyp"), RID: rapid.SampledFrom(allRIDs[:10]).Draw(t, "rid")}
@@ -89,6 +90,9 @@ func genCase(profile string) *rapid.Generator[Case] {
 			k := rapid.IntRange(0, 25).Draw(t, "nrace")
 			for i := 0; i < k; i++ {
 				switch r := rapid.IntRange(0, 10).Draw(t, "racek"); {
+				case r == 10 && rapid.Bool().Draw(t, "second"):
+					// a second Shutdown call racing with the first (returns nil or not-started, never panics)
+					c.Prog = append(c.Prog, Op{K: "foreign", Typ: "shutdown2"})
 				case r == 10:
 					// restart attempted while Shutdown may still be finishing (refused or accepted)
 					c.Prog = append(c.Prog, Op{K: "serve"})
